@@ -386,8 +386,9 @@ structure Src where
   var : Nat
   path : List Step
   xf : Xf := .id
-  /-- JSON leaf (tag path of the Go structs) the accessor reads. -/
-  json : String
+  /-- JSON leaf (tag path of the Go structs) the accessor reads: index into the generated
+  `pathTable` (strings are interned: the kernel compares naturals fast and long strings slowly). -/
+  jid : Nat
   /-- Go expression, for documentation. -/
   go : String := ""
 deriving Repr
@@ -625,74 +626,78 @@ end
 
 mutual
 /-- JSON leaves hashed through a raw `PutBytes` (injectivity needs a length hypothesis for them). -/
-def Sch.rawFields : Sch → List String
-  | .raw s | .rawIfNonEmpty s => [s.json]
+def Sch.rawFields : Sch → List Nat
+  | .raw s | .rawIfNonEmpty s => [s.jid]
   | .rawNil => []
   | .fixed _ _ | .blist _ _ | .u64 _ | .constU64 _ | .bool _ | .u64s _ _ | .sigs _ _ => []
   | .cont kids => Sch.rawFieldsL kids
   | .mix _ _ kids => Sch.rawFieldsL kids
   | .loop _ body => Sch.rawFieldsL body
   | .seq kids => Sch.rawFieldsL kids
-def Sch.rawFieldsL : List Sch → List String
+def Sch.rawFieldsL : List Sch → List Nat
   | [] => []
   | s :: ss => s.rawFields ++ Sch.rawFieldsL ss
 end
 
 mutual
 /-- JSON leaves hashed through `putBytesN` (left-padded: injectivity needs the exact length). -/
-def Sch.fixedFields : Sch → List (String × Nat)
-  | .fixed n s => [(s.json, n)]
+def Sch.fixedFields : Sch → List (Nat × Nat)
+  | .fixed n s => [(s.jid, n)]
   | .raw _ | .rawIfNonEmpty _ | .rawNil => []
   | .blist _ _ | .u64 _ | .constU64 _ | .bool _ | .u64s _ _ | .sigs _ _ => []
   | .cont kids => Sch.fixedFieldsL kids
   | .mix _ _ kids => Sch.fixedFieldsL kids
   | .loop _ body => Sch.fixedFieldsL body
   | .seq kids => Sch.fixedFieldsL kids
-def Sch.fixedFieldsL : List Sch → List (String × Nat)
+def Sch.fixedFieldsL : List Sch → List (Nat × Nat)
   | [] => []
   | s :: ss => s.fixedFields ++ Sch.fixedFieldsL ss
 end
 
 mutual
 /-- JSON leaves whose value enters the hash. -/
-def Sch.mentions : Sch → List String
-  | .raw s | .rawIfNonEmpty s | .fixed _ s | .blist _ s | .u64 s | .bool s | .u64s _ s | .sigs _ s => [s.json]
+def Sch.mentions : Sch → List Nat
+  | .raw s | .rawIfNonEmpty s | .fixed _ s | .blist _ s | .u64 s | .bool s | .u64s _ s | .sigs _ s => [s.jid]
   | .rawNil | .constU64 _ => []
   | .cont kids => Sch.mentionsL kids
   | .mix _ _ kids => Sch.mentionsL kids
   | .loop _ body => Sch.mentionsL body
   | .seq kids => Sch.mentionsL kids
-def Sch.mentionsL : List Sch → List String
+def Sch.mentionsL : List Sch → List Nat
   | [] => []
   | s :: ss => s.mentions ++ Sch.mentionsL ss
 end
 
 -- lists whose length is mixed in.
 mutual
-def Sch.lists : Sch → List String
-  | .mix _ num kids => num.json :: Sch.listsL kids
+def Sch.lists : Sch → List Nat
+  | .mix _ num kids => num.jid :: Sch.listsL kids
   | .cont kids | .seq kids => Sch.listsL kids
   | .loop _ body => Sch.listsL body
   | _ => []
-def Sch.listsL : List Sch → List String
+def Sch.listsL : List Sch → List Nat
   | [] => []
   | s :: ss => s.lists ++ Sch.listsL ss
 end
 
-/-- one decoded JSON leaf of a file format version (T-fields). -/
+/-- one decoded JSON leaf of a file format version (T-fields); paths are indices into the generated
+`pathTable`. -/
 structure Leaf where
   /-- JSON path in the file, `[]` marks list elements. -/
-  path : String
+  pid : Nat
   /-- Go type kind of the JSON struct field: str, int, uint, bool, hex, b64, intstr, gwei. -/
   kind : String
-  /-- the tag path of the Go struct field the leaf is decoded into (identical to `path` unless the
-  per-version JSON struct differs from the Go struct: legacy single validator addresses, v1.6/1.7
-  single deposit data). -/
-  target : String
-deriving Repr, DecidableEq
+  /-- the tag path of the Go struct field the leaf is decoded into (identical to the path unless the
+  per-version JSON struct differs from the Go struct: legacy single validator addresses, v1.6/v1.7
+  single deposit data; 0 = decoding stores nothing and rejects every non-default value). -/
+  tid : Nat
+deriving Repr
 
-/-- every leaf is hashed or explicitly allowed. -/
-def coveredBy (leaves : List Leaf) (mentioned allow : List String) : Bool :=
-  leaves.all (fun l => mentioned.contains l.target || allow.contains l.path)
+/-- name of an interned path. -/
+def pathName (tbl : List String) (i : Nat) : String := tbl.getD i ""
+
+/-- every leaf is hashed (its decode target is read by a schema) or explicitly allowed by name. -/
+def coveredBy (tbl : List String) (leaves : List Leaf) (mentioned : List Nat) (allow : List String) : Bool :=
+  leaves.all (fun l => (l.tid != 0 && mentioned.contains l.tid) || allow.contains (pathName tbl l.pid))
 
 end CharonV.Ssz
